@@ -70,6 +70,10 @@ PROFILES = {
     # chain bookkeeping after a failed macrostep
     "loopfaults": {"p_always": 0.2, "p_raise": 0.55, "p_raise_burst": 0.2, "p_ondone": 0.4, "p_final": 0.2, "max_iterations": 4,
                    "p_guard": 0.3, "p_fail": 0.15, "p_missing": 0.15, "p_ctx": 0.2, "n_events": 10, "p_on": 0.5},
+    # parallel regions whose eventless transitions are enabled in the SAME microstep and invalidate one another
+    # (one region's `always` leaves the parallel state while another region's `always` moves inside it)
+    "parallways": {"p_parallel": 0.75, "p_always": 0.5, "p_guard": 0.15, "p_leaf": 0.3, "p_history": 0.1, "p_final": 0.1,
+                   "p_on": 0.3, "p_raise": 0.1, "n_events": 5, "max_iterations": 5},
     "actions": {"p_ctx": 0.35, "p_fail": 0.12, "p_assign": 0.2, "p_choose": 0.2, "p_raise": 0.15, "p_guard": 0.4,
                 "p_always": 0.15, "p_parallel": 0.3},
     "faults": {"p_ctx": 0.2, "p_fail": 0.3, "p_missing": 0.08, "p_assign": 0.1, "p_choose": 0.15, "p_async_action": 0.05,
